@@ -722,11 +722,13 @@ def _impl_run(case, coq, env):
                 return real_stat(path, *a, **kw)
             out = []
             for meth, conv in (("name", B), ("status", B), ("cpu_num", int)):
-                p = psutil.Process(pid)               # constructed while the file is readable
-                state["plan"][spath] = [case["first"], None if case["second"] == "data" else case["second"]]
-                os.stat = fake_stat
+                def call(meth=meth):
+                    p = psutil.Process(pid)           # constructed while the file is readable
+                    state["plan"][spath] = [case["first"], None if case["second"] == "data" else case["second"]]
+                    os.stat = fake_stat
+                    return getattr(p, meth)()
                 try:
-                    out.append(outcome(getattr(p, meth), conv))
+                    out.append(outcome(call, conv))
                 finally:
                     os.stat = real_stat
                     state["plan"].pop(spath, None)
@@ -759,7 +761,6 @@ def _impl_run(case, coq, env):
                     state["denied"].add(os.path.join(task, nm, "stat"))
                 elif data is not None:
                     _write(os.path.join(task, nm, "stat"), data)
-            p = psutil.Process(pid)
             alive = case["alive"]
             pdir = os.path.join(root, str(pid))
 
@@ -767,9 +768,12 @@ def _impl_run(case, coq, env):
                 if not alive and isinstance(path, str) and (path + "/").startswith(pdir + "/"):
                     raise _oserr("ENOENT", path)
                 return real_stat(path, *a, **kw)
-            os.stat = fake_stat
+            def call():
+                p = psutil.Process(pid)
+                os.stat = fake_stat
+                return p.threads()
             try:
-                return outcome(p.threads, lambda rows: [[r.id, _F(r.user_time), _F(r.system_time)] for r in rows])
+                return outcome(call, lambda rows: [[r.id, _F(r.user_time), _F(r.system_time)] for r in rows])
             finally:
                 os.stat = real_stat
         if k in ("ppid_map", "ppid_map_raw"):
